@@ -4,6 +4,7 @@ import PaneModel.Model.Rename
 import PaneModel.Model.Render
 import PaneModel.Model.Cache
 import PaneModel.Model.Order
+import PaneModel.Model.Pane
 /-!
 # Line-protocol driver: one JSON scenario per input line, one JSON result per output line.
 Run with `lake env lean --run Driver.lean` (or as the compiled `driver` executable).
@@ -302,6 +303,150 @@ def parseClass (j : Json) : P ClassEntry := do
       match x with | .str s => pure (some s) | _ => pure none
     classHandlers := ← (← jarr (jfieldD j "classHandlers" (.arr #[]))).toList.mapM parseHandler }
 
+def optStrJ (j : Json) : Option String := match j with | .str s => some s | _ => none
+def optListJ (j : Json) : P (Option (List String)) := do
+  match j with
+  | .arr a => pure (some (← a.toList.mapM jstr))
+  | .str s => pure (some [s])
+  | _ => pure none
+def optBoolJ (j : Json) : Option Bool := match j with | .bool b => some b | _ => none
+
+def parseDefault (d : Json) : P DefaultKind := do
+  match d with
+  | .null => pure .missing
+  | .str "missing" => pure .missing
+  | _ =>
+    if let .ok v := jfield d "value" then pure (.value (← parseVal v))
+    else if let .ok f := jfield d "factory" then pure (.factory (← jstr f))
+    else throw "bad default"
+
+def parseBodyItem (j : Json) : P BodyItem := do
+  let ty := jfieldD j "ty" .null
+  if ty == .str "KW_ONLY" then return .kwOnlyMarker
+  let spec := jfieldD j "spec" (Json.mkObj [])
+  let g := fun (k : String) => jfieldD spec k .null
+  pure (.field {
+    name := ← jstr (← jfield j "name")
+    ty := ← parseTy ty
+    rename := optStrJ (g "rename")
+    inNames := ← optListJ (g "in_names")
+    aliases := ← optListJ (g "aliases")
+    outName := optStrJ (g "out_name")
+    init := (optBoolJ (g "init")).getD true
+    exclude := (optBoolJ (g "exclude")).getD false
+    kwOnly := (optBoolJ (g "kw_only")).getD false
+    compare := (optBoolJ (g "compare")).getD true
+    hash := (optBoolJ (g "hash")).getD ((optBoolJ (g "compare")).getD true)
+    repr := (optBoolJ (g "repr")).getD true
+    default := ← parseDefault (jfieldD j "default" .null)
+    converter := optStrJ (g "converter")
+    viaFieldSpec := (match spec with | .obj kvs => !kvs.isEmpty | _ => false)
+      || (match jfieldD j "default" .null with | .obj _ => (jfield (jfieldD j "default" .null) "factory").toOption.isSome | _ => false) })
+
+def parseOptsOverride (o : Json) : P OptsOverride := do
+  let g := fun (k : String) => jfieldD o k .null
+  let custom ← match g "custom" with
+    | .arr a => some <$> a.toList.mapM parseHandler
+    | _ => pure none
+  pure { outFormat := optStrJ (g "out_format"), inFormat := ← optListJ (g "in_format"),
+         eq := optBoolJ (g "eq"), order := optBoolJ (g "order"), frozen := optBoolJ (g "frozen"),
+         unsafeHash := optBoolJ (g "unsafe_hash"), kwOnly := optBoolJ (g "kw_only"), allowExtra := optBoolJ (g "allow_extra"),
+         rename := optStrJ (g "rename"), inRename := ← optListJ (g "in_rename"), outRename := optStrJ (g "out_rename"),
+         custom := custom }
+
+def parseDecl (j : Json) : P ClassDeclM := do
+  let base ← match jfieldD j "base" .null with
+    | .null => pure none
+    | b => do
+      let a ← jarr (← jfield b "cls")
+      pure (some ((← jstr a[0]!), (← (← jarr a[1]!).toList.mapM parseTy)))
+  pure { name := ← jstr (← jfield j "name"), base := base
+         tvars := ← (← jarr (jfieldD j "tvars" (.arr #[]))).toList.mapM jstr
+         opts := ← parseOptsOverride (jfieldD j "opts" (Json.mkObj []))
+         body := ← (← jarr (← jfield j "fields")).toList.mapM parseBodyItem
+         hook := optStrJ (jfieldD j "hook" .null) }
+
+/-- process a list of declarations in order; each may name an earlier one as its (subscripted) base -/
+def processAll : List ClassDeclM → List (String × ClassM) → Except ClassErr (List (String × ClassM))
+  | [], acc => .ok acc
+  | d :: ds, acc =>
+    let r : Except ClassErr ClassM := match d.base with
+      | none => processClass d none [] []
+      | some (bn, bargs) =>
+        match acc.lookup bn with
+        | none => .error (.typeError ("unknown base " ++ bn))
+        | some p =>
+          if bargs.isEmpty then processClass d (some p) [] p.params
+          else match subscriptBound p bargs with
+            | .error e => .error e
+            | .ok bound => processClass d (some p) bound (dedupS (bargs.flatMap freeVars))
+    match r with
+    | .error e => .error e
+    | .ok c => processAll ds (acc ++ [(d.name, c)])
+
+def opName : CmpOp → String
+  | .gt => "gt" | .ge => "ge" | .lt => "lt" | .le => "le" | .eq => "eq" | .ne => "ne"
+
+partial def condJson : CondExpr → Json
+  | .all cs => Json.mkObj [("all", .arr (cs.map condJson).toArray)]
+  | .any cs => Json.mkObj [("any", .arr (cs.map condJson).toArray)]
+  | .not c => Json.mkObj [("not", condJson c)]
+  | .leaf (.user id arg) n => Json.mkObj [("user", .arr #[.str id, .num arg]), ("name", .str n)]
+  | .leaf (.valCmp op b) n => Json.mkObj [("valCmp", .arr #[.str (opName op), valJson b]), ("name", .str n)]
+  | .leaf (.lenCmp op b) n => Json.mkObj [("lenCmp", .arr #[.str (opName op), .num b]), ("name", .str n)]
+  | .leaf (.stock s) n => Json.mkObj [("stock", .str s), ("name", .str n)]
+  | .leaf .finite n => Json.mkObj [("finite", .bool true), ("name", .str n)]
+
+def fmtJson : ExpFmt → Json
+  | .satisfying => .str "satisfying"
+  | .withName => .str "withName"
+  | .adjective a b => Json.mkObj [("adjective", .arr #[.str a, .str b])]
+  | .suffix s => Json.mkObj [("suffix", .str s)]
+
+partial def tyJson : Ty → Json
+  | .any => .str "any"
+  | .ndarray => .str "ndarray"
+  | .scalar s => .str s
+  | .seq o a => Json.mkObj [("seq", .arr #[.str o, match a with | some t => tyJson t | none => .null])]
+  | .tupleFixed ts => Json.mkObj [("tuple", .arr (ts.map tyJson).toArray)]
+  | .mapping o as => Json.mkObj [("map", .arr #[.str o, .arr (as.map tyJson).toArray])]
+  | .union ts => Json.mkObj [("union", .arr (ts.map tyJson).toArray)]
+  | .literal vs => Json.mkObj [("lit", .arr (vs.map valJson).toArray)]
+  | .enum n => Json.mkObj [("enum", .str n)]
+  | .sub n b => Json.mkObj [("sub", .arr #[.str n, .str b])]
+  | .structLit ns ts => Json.mkObj [("struct", .arr ((ns.zip ts).map fun (n, t) => Json.arr #[.str n, tyJson t]).toArray)]
+  | .tupleLit ts => Json.mkObj [("tuplit", .arr (ts.map tyJson).toArray)]
+  | .cls n as => Json.mkObj [("cls", .arr #[.str n, .arr (as.map tyJson).toArray])]
+  | .annotated t anns => Json.mkObj [("ann", .arr #[tyJson t, .arr (anns.map fun a => match a with
+      | .cond c f => Json.mkObj [("cond", condJson c), ("fmt", fmtJson f)]
+      | .tagged tag l => Json.mkObj [("tagged", .arr #[.str tag, match l with
+          | .internal => .str "internal" | .external => .str "external" | .adjacent a b => .arr #[.str a, .str b]])]
+      | .foreign => Json.mkObj [("foreign", .bool true)]).toArray])]
+  | .typeVar n b cs => Json.mkObj [("typevar", .arr #[.str n, match b with | some t => tyJson t | none => .null, .arr (cs.map tyJson).toArray])]
+  | .pattern a => Json.mkObj [("pattern", match a with | some s => .str s | none => .null)]
+  | .forwardRef s => Json.mkObj [("fwd", .str s)]
+  | .unsupported w => Json.mkObj [("unsupported", .str w)]
+
+def defaultJson : DefaultKind → Json
+  | .missing => .str "missing"
+  | .value v => Json.mkObj [("value", valJson v)]
+  | .factory f => Json.mkObj [("factory", .str f)]
+
+def fieldJson (f : FieldInfo) : Json :=
+  Json.mkObj [("name", .str f.name), ("inNames", .arr (f.inNames.map Json.str).toArray), ("outName", .str f.outName),
+    ("init", .bool f.init), ("exclude", .bool f.exclude), ("kwOnly", .bool f.kwOnly), ("default", defaultJson f.default),
+    ("compare", .bool f.compare), ("hash", .bool f.hash), ("repr", .bool f.repr)]
+
+def classJson (c : ClassM) : Json :=
+  Json.mkObj [("name", .str c.name), ("fields", .arr (c.fields.map fieldJson).toArray),
+    ("fieldTys", .arr (c.fieldTys.map tyJson).toArray),
+    ("fieldConv", .arr (c.fieldConv.map fun x => match x with | some s => Json.str s | none => .null).toArray),
+    ("inFormat", .arr (c.opts.inFormat.map Json.str).toArray), ("outFormat", .str c.opts.outFormat),
+    ("allowExtra", .bool c.opts.allowExtra), ("minPos", .num c.minPos), ("maxPos", .num c.maxPos),
+    ("eq", .bool c.opts.eq), ("order", .bool c.opts.order), ("frozen", .bool c.opts.frozen), ("unsafeHash", .bool c.opts.unsafeHash),
+    ("kwOnly", .bool c.opts.kwOnly), ("params", .arr (c.params.map Json.str).toArray),
+    ("nHandlers", .num c.opts.classHandlers.length)]
+
 structure Tables where
   ext : List (String × Val × Except Exc Val) := []
   strs : List (Val × String) := []
@@ -495,6 +640,51 @@ def runOp (sc : Scen) (j : Json) : P Json := do
             pure (Json.mkObj [("x", valJson x), ("d", valJson d), ("x2", resultJson r2), ("d2", d2)])
           | .error e => pure (Json.mkObj [("x", valJson x), ("d_raises", .str (excName e.cls))])
         | r => pure (resultJson r)
+  | "process" =>
+    let decls ← (← jarr (← jfield j "decls")).toList.mapM parseDecl
+    match processAll decls [] with
+    | .error (.typeError _) => pure (Json.mkObj [("classError", "TypeError")])
+    | .error (.valueError _) => pure (Json.mkObj [("classError", "ValueError")])
+    | .ok cs =>
+      match cs.getLast? with
+      | some (_, c) => pure (Json.mkObj [("class", classJson c)])
+      | none => throw "no decls"
+  | "construct" | "unchecked" | "dictview" | "copy" | "replace" | "setattr" | "delattr" | "fromdict" =>
+    let key ← jstr (← jfield j "cls")
+    match sc.env.classes.find? (·.key == key) with
+    | none => pure (Json.mkObj [("driverError", .str ("unknown class " ++ key))])
+    | some ce =>
+      let info := ce.info
+      let conv := fun (i : Nat) (v : Val) =>
+        match ce.fieldTys[i]? with
+        | none => Result.raises { cls := .runtimeBug, msg := "IndexError" }
+        | some t =>
+          match dynOf sc E v with
+          | .error e => .raises e
+          | .ok d =>
+            match makeConverter sc.env {} t with
+            | .error _ => .raises { cls := .typeError, msg := "TypeError: build" }
+            | .ok c => convertC E c d
+      let args ← (← jarr (jfieldD j "args" (.arr #[]))).toList.mapM parseVal
+      let kwargs ← (← jarr (jfieldD j "kwargs" (.arr #[]))).toList.mapM fun p => do
+        let q ← jarr p
+        pure ((← jstr q[0]!), (← parseVal q[1]!))
+      match op with
+      | "construct" => pure (resultJson (constructM E info conv true args kwargs))
+      | "unchecked" => pure (resultJson (constructM E info conv false args kwargs))
+      | "fromdict" =>
+        let st ← optListJ (jfieldD j "set" .null)
+        pure (resultJson (fromDictUnchecked E info kwargs st))
+      | _ =>
+        let o ← parseVal (← jfield j "obj")
+        match op with
+        | "dictview" =>
+          pure (exceptJson (dictView info o (← jbool (jfieldD j "set_only" (.bool false))) (optStrJ (jfieldD j "rename" .null))))
+        | "copy" => pure (resultJson (copyM E info o))
+        | "replace" => pure (resultJson (replaceM E info conv o kwargs))
+        | "setattr" =>
+          pure (exceptJson (setattrM (← jbool (jfieldD j "frozen" (.bool true))) info o (← jstr (← jfield j "name")) (← parseVal (← jfield j "val"))))
+        | _ => pure (exceptJson (delattrM o (← jstr (← jfield j "name"))))
   | "into_dyn" =>
     let v ← parseVal (← jfield j "val")
     pure (exceptJson (dynOf sc E v))
